@@ -34,7 +34,9 @@ import (
 )
 
 const (
-	c02LBRoutes = 256
+	// how long the client holds an Expect: 100-continue body back before sending it anyway
+	c02LBExpectWait = 8 * time.Second
+	c02LBRoutes     = 256
 	// finding: see harness/C02/FINDINGS.md
 	c02KnownWriteDeadline = "loopback-timeout-response-after-write-deadline"
 )
@@ -56,12 +58,18 @@ type c02LBCase struct {
 	S int       `json:"s"` // server index
 	P []c02Step `json:"p"` // H S W P, and C (block kind only)
 	X int       `json:"x,omitempty"`
+	// EC: the judged request is an upload with "Expect: 100-continue" whose 2 KB body the
+	// client holds back until the server says 100 Continue; no handler reads the body, so
+	// the server never says it and the response must arrive without the body (server 1 only)
+	EC bool `json:"ec,omitempty"`
 }
 
 type c02LBReq struct {
 	id      int
 	prog    []c02Step
 	entered int32
+	expect  bool          // send Expect: 100-continue
+	endNS   int64         // UnixNano at which the handler returned or panicked (0: never ran)
 	inside  chan struct{} // conns: handler announces itself
 	gate    chan struct{} // conns: handler waits for the harness
 }
@@ -75,7 +83,7 @@ var (
 	c02LBNonce  = fmt.Sprintf("%d-%d", os.Getpid(), time.Now().UnixNano())
 	c02LBNextRt [3]int64
 	c02LBClient = &http.Client{
-		Transport:     &http.Transport{DisableKeepAlives: true},
+		Transport:     &http.Transport{DisableKeepAlives: true, ExpectContinueTimeout: c02LBExpectWait},
 		CheckRedirect: func(*http.Request, []*http.Request) error { return http.ErrUseLastResponse },
 		Timeout:       60 * time.Second,
 	}
@@ -90,6 +98,7 @@ func c02LBHandler(w http.ResponseWriter, r *http.Request) {
 	}
 	q := v.(*c02LBReq)
 	atomic.AddInt32(&q.entered, 1)
+	defer func() { atomic.StoreInt64(&q.endNS, time.Now().UnixNano()) }()
 	if q.gate != nil {
 		q.inside <- struct{}{}
 		<-q.gate
@@ -177,6 +186,7 @@ func c02LBServer(i int) (int, error) {
 }
 
 type c02LBResp struct {
+	at   time.Time     // client side: instant the response (or the error) was in
 	took time.Duration // client side: from before connecting until the response (or the error) was in
 	err  error
 	code int
@@ -188,7 +198,7 @@ func (r c02LBResp) String() string {
 	if r.err != nil {
 		return fmt.Sprintf("transport error (no HTTP response) after %v: %v", r.took.Round(time.Millisecond), r.err)
 	}
-	return fmt.Sprintf("status %d, marker headers %v, body %q", r.code, c02Markers(r.hdr), r.body)
+	return fmt.Sprintf("status %d, marker headers %v, body %s", r.code, c02Markers(r.hdr), c02Q(r.body))
 }
 
 func c02LBDo(port int, route int64, q *c02LBReq, bodyLen int) c02LBResp {
@@ -199,17 +209,40 @@ func c02LBDo(port int, route int64, q *c02LBReq, bodyLen int) c02LBResp {
 		return c02LBResp{err: err}
 	}
 	req.Header.Set("X-C02-Id", fmt.Sprint(q.id))
+	if q.expect {
+		req.Header.Set("Expect", "100-continue")
+	}
 	t0 := time.Now()
 	resp, err := c02LBClient.Do(req)
 	if err != nil {
-		return c02LBResp{err: err, took: time.Since(t0)}
+		return c02LBResp{err: err, took: time.Since(t0), at: time.Now()}
 	}
 	defer resp.Body.Close()
 	b, err := io.ReadAll(resp.Body)
 	if err != nil {
-		return c02LBResp{err: err, took: time.Since(t0)}
+		return c02LBResp{err: err, took: time.Since(t0), at: time.Now()}
 	}
-	return c02LBResp{code: resp.StatusCode, hdr: resp.Header, body: b, took: time.Since(t0)}
+	return c02LBResp{code: resp.StatusCode, hdr: resp.Header, body: b, took: time.Since(t0), at: time.Now()}
+}
+
+// c02LBExpectGap judges how long the response to an Expect: 100-continue request was
+// withheld after the server side was done with it (handler returned / panicked, or,
+// for a request no handler saw, after the client started). The response must not wait
+// for the unsent body. A response that shows up only when the client gave up waiting
+// for "100 Continue" and sent the body anyway (c02LBExpectWait) is a violation; a
+// delay of seconds below that signature is a stalled machine (Excluded).
+func c02LBExpectGap(q *c02LBReq, r c02LBResp) (fail string, stalled bool) {
+	gap := r.took
+	if end := atomic.LoadInt64(&q.endNS); end != 0 {
+		gap = r.at.Sub(time.Unix(0, end))
+	}
+	switch {
+	case gap >= c02LBExpectWait-500*time.Millisecond:
+		return fmt.Sprintf("the response reached the client only %v after the server side was done with the request, i.e. when the client stopped waiting for 100 Continue (%v) and sent the body the handler never asked for", gap.Round(time.Millisecond), c02LBExpectWait), false
+	case gap >= 3*time.Second:
+		return "", true
+	}
+	return "", false
 }
 
 func c02LBNew(prog []c02Step) *c02LBReq {
@@ -243,7 +276,7 @@ func c02LBOwn(q *c02LBReq, r c02LBResp) string {
 	gm, wm := c02Markers(r.hdr), c02Lower(p.hdr)
 	if p.panics {
 		if !bytes.HasPrefix(p.body, r.body) {
-			return fmt.Sprintf("body %q is not what the handler wrote before panicking (%q)", r.body, p.body)
+			return fmt.Sprintf("body %s is not what the handler wrote before panicking (%s)", c02Q(r.body), c02Q(p.body))
 		}
 		for k, v := range gm {
 			if wm[k] != v {
@@ -253,7 +286,7 @@ func c02LBOwn(q *c02LBReq, r c02LBResp) string {
 		return ""
 	}
 	if !bytes.Equal(r.body, p.body) {
-		return fmt.Sprintf("body %q, want %q", r.body, p.body)
+		return fmt.Sprintf("body %s, want %s", c02Q(r.body), c02Q(p.body))
 	}
 	if fmt.Sprint(gm) != fmt.Sprint(wm) {
 		return fmt.Sprintf("marker headers %v, want %v", gm, wm)
@@ -293,6 +326,9 @@ func c02LBValid(c c02LBCase) bool {
 		default:
 			return false
 		}
+	}
+	if c.EC && (c.S != 1 || c.K == "block") {
+		return false // server 1 has no timeout, hence no ReadTimeout that would end a wait for the body early
 	}
 	switch c.K {
 	case "own":
@@ -334,7 +370,23 @@ func c02LBRun(c c02LBCase) (v kit.Verdict) {
 	switch c.K {
 	case "own":
 		q := c02LBNew(c.P)
-		r := c02LBDo(port, route, q, 3)
+		q.expect = c.EC
+		bodyLen := 3
+		if c.EC {
+			bodyLen = 2048
+			cls["expect-100-continue"] = true
+			v.NonTrivial = true
+		}
+		r := c02LBDo(port, route, q, bodyLen)
+		if c.EC {
+			if s, stalled := c02LBExpectGap(q, r); s != "" {
+				return v.Failf("loopback server %+v, Expect: 100-continue upload, handler ends at once without reading the body: %s; got %s", cf, s, r)
+			} else if stalled {
+				cls["machine-stalled"] = true
+				v.Excluded = true
+				return v
+			}
+		}
 		p := c02LBPlan(q)
 		if p.panics {
 			cls["panic"] = true
@@ -392,7 +444,18 @@ func c02LBRun(c c02LBCase) (v kit.Verdict) {
 		}
 	case "toobig":
 		q := c02LBNew(c.P)
+		q.expect = c.EC
 		r := c02LBDo(port, route, q, int(cf.MB)+c.X)
+		if c.EC {
+			cls["expect-100-continue"] = true
+			if s, stalled := c02LBExpectGap(q, r); s != "" {
+				return v.Failf("loopback server %+v, Expect: 100-continue upload with Content-Length %d > MaxBytes: %s; got %s", cf, int(cf.MB)+c.X, s, r)
+			} else if stalled {
+				cls["machine-stalled"] = true
+				v.Excluded = true
+				return v
+			}
+		}
 		if cf.T > 0 && r.took >= time.Duration(cf.T)*time.Millisecond/2 {
 			cls["machine-stalled"] = true
 			v.Excluded = true
@@ -434,7 +497,24 @@ func c02LBRun(c c02LBCase) (v kit.Verdict) {
 		}
 		for i := 0; i < c.X; i++ {
 			q := c02LBNew(c.P)
-			r := c02LBDo(port, route, q, 3)
+			q.expect = c.EC
+			bodyLen := 3
+			if c.EC {
+				bodyLen = 2048
+				cls["expect-100-continue"] = true
+			}
+			r := c02LBDo(port, route, q, bodyLen)
+			if c.EC {
+				if s, stalled := c02LBExpectGap(q, r); s != "" {
+					release()
+					return v.Failf("loopback server %+v, Expect: 100-continue upload arriving while %d requests are inside their handlers: %s; got %s", cf, cf.MC, s, r)
+				} else if stalled {
+					release()
+					cls["machine-stalled"] = true
+					v.Excluded = true
+					return v
+				}
+			}
 			if r.err != nil || r.code != http.StatusServiceUnavailable || atomic.LoadInt32(&q.entered) != 0 || c02LBNoTrace(r) != "" {
 				release()
 				return v.Failf("loopback server %+v: %d requests are inside their handlers, arrival %d: want 503 without running the handler; got %s, handler ran %d times",
@@ -457,7 +537,7 @@ func c02LBRun(c c02LBCase) (v kit.Verdict) {
 }
 
 func c02LBGen(rt *rapid.T) c02LBCase {
-	c := c02LBCase{K: rapid.SampledFrom([]string{"own", "own", "block", "block", "toobig", "conns"}).Draw(rt, "kind")}
+	c := c02LBCase{K: rapid.SampledFrom([]string{"own", "own", "own", "block", "block", "toobig", "conns", "conns"}).Draw(rt, "kind")}
 	switch c.K {
 	case "own", "toobig":
 		c.S = rapid.IntRange(0, 1).Draw(rt, "server")
@@ -511,11 +591,22 @@ func c02LBGen(rt *rapid.T) c02LBCase {
 	if c.K != "conns" && rapid.IntRange(0, 3).Draw(rt, "panic") == 0 {
 		c.P = append(c.P, c02Step{K: "P"})
 	}
+	if c.S == 1 && c.K != "block" && rapid.IntRange(0, 1).Draw(rt, "expect") == 0 {
+		c.EC = true
+		if c.K == "own" {
+			// end in a guard response: the recover guard's 500 (or the handler's own 5xx kept by it)
+			if n := len(c.P); n == 0 || c.P[n-1].K != "P" {
+				if !(n > 0 && c.P[n-1].K == "S" && c02BadStatus(c.P[n-1].N)) {
+					c.P = append(c.P, c02Step{K: "P"})
+				}
+			}
+		}
+	}
 	return c
 }
 
 func TestVerif_C02_rest_loopback(t *testing.T) {
-	kit.Run(t, "C02", "rest-loopback", kit.Opts{Quick: 24, Thorough: 1600}, c02LBGen,
+	kit.Run(t, "C02", "rest-loopback", kit.Opts{Quick: 36, Thorough: 1600}, c02LBGen,
 		func(c c02LBCase) kit.Verdict { return c02LBRun(c) })
 	for i, err := range c02LBErr {
 		if err != nil {
